@@ -131,6 +131,36 @@ def builders():
 
     B["Shell"] = (shell, chop_shell, {"connected": False})
 
+    def shell_roofs_wall(fr, s, wall_first=False):
+        # two boxes side by side: both roofs and the front wall of the first one. The points on the wall's upper edge
+        # belong to three (two) faces whose normals are not symmetric about their average
+        q = [np.asarray(p) for p in quad(fr, s)]
+        a = cb.Extrude(cb.Face(q), 0.8 * s)
+        b = cb.Extrude(cb.Face([q[1], q[1] + (q[1] - q[0]), q[2] + (q[2] - q[3]), q[2]]), 0.8 * s)
+        wall = a.get_face("front")
+        wall.invert()
+        faces = [a.get_face("top"), b.get_face("top"), wall]
+        if wall_first:
+            faces = faces[::-1]
+        return cb.Shell(faces, 0.2 * s)
+
+    # (each loft shares a side - the quad over a common base edge - with the next: one face-connected component, two
+    # vertices per distinct base point)
+    B["ShellRoofsWall"] = (shell_roofs_wall, chop_shell, {"vertices": 16, "frames": [0, 4]})
+    B["ShellWallRoofs"] = (lambda fr, s: shell_roofs_wall(fr, s, True), chop_shell, {"vertices": 16, "frames": [0, 4]})
+
+    def shell_box6(fr, s):
+        box = cb.Extrude(cb.Face(quad(fr, s)), 0.8 * s)
+        faces = []
+        for side in ("bottom", "top", "left", "right", "front", "back"):
+            f = box.get_face(side)
+            if side in ("bottom", "left", "front"):
+                f.invert()
+            faces.append(f)
+        return cb.Shell(faces, 0.15 * s)
+
+    B["ShellBox6"] = (shell_box6, chop_shell, {"vertices": 16, "frames": [0, 4]})
+
     def ext_stack(fr, s):
         st = cb.ExtrudedStack(grid(0, s), 1.5 * s, 3)
         return st
@@ -379,6 +409,8 @@ def run_shape(case):
     b2, comps = structural_checks(mesh, s, opt.get("connected", True))
     for clause, detail in b2:
         bad(clause, detail)
+    if "vertices" in opt and len(mesh.vertices) != opt["vertices"]:
+        bad("vertex-count", f"{len(mesh.vertices)} vertices, expected {opt['vertices']} (blocks that touch share their vertices)")
     if "blocks" in opt and len(mesh.blocks) != opt["blocks"]:
         bad("block-count", f"{len(mesh.blocks)}")
     if "arc_axis" in opt:
